@@ -4,7 +4,7 @@ import json, random, re
 import chars
 from vlib import Infra
 
-STATE_KEYS = ("input", "cx", "yanked", "cy", "offset", "sel", "multi")
+STATE_KEYS = ("input", "cx", "yanked", "cy", "offset", "sel", "multi", "track")
 
 NAME_FIX = {"position": "pos", "delete-char-eof": "delete-char/eof", "backward-delete-char-eof": "backward-delete-char/eof"}
 
@@ -14,7 +14,7 @@ LENIENT = False     # True: characters outside the symbol table denote themselve
 
 def state_of(ev):
     return {"input": chars.syms(ev["input"], LENIENT), "cx": ev["cx"], "yanked": chars.syms(ev["yanked"], LENIENT), "cy": ev["cy"],
-            "offset": ev["offset"], "sel": ev["sel"], "multi": ev["multi"]}
+            "offset": ev["offset"], "sel": ev["sel"], "multi": ev["multi"], "track": ev["track"]}
 
 
 def fmt_action(act, arg):
@@ -52,7 +52,8 @@ class Cfg:
     """Session configuration -> fzf arguments + the spec environment constants."""
 
     def __init__(self, layout="default", cycle=False, multi=None, scroll_off=None, inputless=False, disabled=False,
-                 extra=()):
+                 extra=(), track=False):
+        self.track = track
         self.layout, self.cycle, self.multi, self.scroll_off = layout, cycle, multi, scroll_off
         self.inputless, self.disabled, self.extra = inputless, disabled, list(extra)
 
@@ -70,6 +71,8 @@ class Cfg:
             a.append("--no-input")
         if self.disabled:
             a.append("--disabled")
+        if self.track:
+            a.append("--track")
         return a + self.extra
 
     def env(self, ids, texts, max_items):
@@ -93,6 +96,7 @@ def _transitions(trace, cfg, sid, items=None):
     """Projects one session's trace onto transition records.  items: the input records (item immutability check)."""
     recs = []
     ids, texts = [], []
+    last_focus = -1      # the render loop's focusedIndex: the item focused when the list was last rendered
     prev = None          # previous state-carrying event
     prev_rev = None
     evs = [e for e in trace if e["ev"].startswith("term.")]
@@ -116,7 +120,8 @@ def _transitions(trace, cfg, sid, items=None):
             else:
                 k = "trim"
             if prev is not None:
-                recs.append(dict(base, k="list", pre=state_of(prev), post=st, kind=k, minLoaded=e["minIndex"]))
+                recs.append(dict(base, k="list", pre=state_of(prev), post=st, kind=k, minLoaded=e["minIndex"], oldList=ids,
+                                 newList=e["ids"], maxItems=mi))
             prev_rev = e["rev"]
             ids = e["ids"]
             texts = [chars.syms(t) if chars.known(t) else ["e"] for t in (e.get("texts") or [])]
@@ -126,7 +131,8 @@ def _transitions(trace, cfg, sid, items=None):
         elif kind == "term.render":
             if prev is not None:
                 if e["what"] == "list":
-                    recs.append(dict(base, k="render", pre=state_of(prev), post=st, env=cfg.env(ids, texts, mi)))
+                    recs.append(dict(base, k="render", pre=state_of(prev), post=st, env=cfg.env(ids, texts, mi), lastFocus=last_focus))
+                    last_focus = ids[e["cy"]] if 0 <= e["cy"] < len(ids) else -1
                 else:
                     recs.append(dict(base, k="steady", pre=state_of(prev), post=st))
         elif kind in ("term.act", "term.loop", "term.exit"):
